@@ -1,10 +1,11 @@
 #!/bin/bash
 # usage: negpar.sh <seeded-name>...   every check against each (harmless) patch, spread over 4 universes; prints the alarms
 mkdir -p /verif/build/negpar
+NU=${NU:-4}
 ALL="C01 C02 C03 C04 C05 C06 C07 C08 C09 C10 C11 C12 C13 C14 C15 C16 C17 C18 C19"
 i=0
-for n in "$@"; do k=$(( i % 4 + 1 )); i=$((i+1)); lists[$k]="${lists[$k]} $n"; done
-for k in 1 2 3 4; do
+for n in "$@"; do k=$(( i % NU + 1 )); i=$((i+1)); lists[$k]="${lists[$k]} $n"; done
+for k in $(seq 1 $NU); do
   [ -z "${lists[$k]}" ] && continue
   ( for n in ${lists[$k]}; do /verif/tools/universe.sh run $k ./tools/seedcheck.sh $n $ALL; done > /verif/build/negpar/u$k.log 2>&1 ) &
 done
